@@ -13,7 +13,7 @@ import itertools
 
 import numpy as np
 
-from checks.common import hash_tag, to_sparse
+from checks.common import hash_tag, to_sparse, canon_value, quiet_call
 from qmc import gen as G
 from qmc import oracle as O
 from qmc.loader import load
@@ -331,6 +331,12 @@ def run_case(case, seed):
                 if err > condA * max(tr, floor) * 1.01 + floor:
                     fails.append(fail("solution_accuracy", f"{label}: ||x - x*||/||x*|| = {err:.3e}, cond = {condA:.2e}, residual = {tr:.2e}", **t2))
             states.append(digest(label, x))
+        # verbose=True must not change the solution or the reported fields (timing fields excluded)
+        for prec in ("none", "left_lu"):
+            okq, rq = quiet_call(S(tol=1e-8, max_iter=None, preconditioner=prec).solve, Aq, bq)
+            okv, rv = quiet_call(S(tol=1e-8, max_iter=None, preconditioner=prec, verbose=True).solve, Aq, bq)
+            if okq != okv or (okq and canon_value(rq) != canon_value(rv)):
+                fails.append(fail("verbose_changes_result", f"prec={prec}: verbose=True {'raises ' + repr(rv) if not okv else 'returns a different value'}", prec=prec, **tags))
         if (Aq.tobytes(), bq.tobytes()) != before:
             fails.append(fail("input_unchanged", "solve modified A or b", **tags))
     return {
